@@ -6,6 +6,28 @@ No dependency on the repository's test helpers: every object is made with `lumic
 (the constructor behind `ImageStack.to_kymo()` and `lk.simulation`).  Import pylake lazily: `check` puts
 `common.REPO` first on `sys.path` before any harness module touches it.
 
+Private members of pylake (robustness against harmless refactorings)
+---------------------------------------------------------------------
+Three private members are used because they are the cheap way to the object; none of them is something a property
+speaks about, so each has a PUBLIC twin that is taken as soon as the private name is gone (renamed / moved / inlined):
+
+    kymo._kymo_from_array                    -> a one-row camera TIFF per scan line (tifffile) opened with `lk.ImageStack`,
+                                                `define_tether` along that row, `to_kymo(half_window=0)`; the result is
+                                                accepted only if image, line time and pixel size are exactly the requested
+                                                ones (all colours carry the image then, not only `channel`)
+    KymoTrack._from_centroid_estimate        -> a hand-written one-track CSV file (coordinates / minimum duration with 18
+                                                digits, counts from the public `KymoTrack.sample_from_image(h,
+                                                correct_origin=True)`) read with `import_kymotrackgroup_from_csv`
+    KymoTrack._minimum_observable_duration   -> the column "minimum observable duration (seconds)" of the file
+                                                `KymoTrackGroup([track]).save()` writes (`%.6e`: 7 significant digits; no
+                                                column = None).  `MD_LOSSY` is set when this route was taken: comparisons of
+                                                minimum durations are then meaningful to 5e-7 relative only.
+    Kymo._calibration.unit                   is not read any more: `kymo_info` takes the unit from the calibration the
+                                                caller asked `make_kymo` for (or infers it from `pixelsize`/`pixelsize_um`).
+
+`Unreachable` is raised when neither route can express a request (callers turn the case into "?": skipped, never an
+implementation answer).  `PRIVATE_TIES` counts per private name how often the direct / public route was taken.
+
 API
 ---
 make_kymo(image, *, route="lowlevel", calibration="um", pixel_size_um=0.1, line_time_s=None, dt_ns=12800,
@@ -24,7 +46,8 @@ make_kymo(image, *, route="lowlevel", calibration="um", pixel_size_um=0.1, line_
                      "pixel" uncalibrated (pixelsize == [1.0], `pixelsize_um == [None]`); forces route="array".
     returns a `lumicks.pylake.kymo.Kymo`; `kymo_info(kymo)` gives the numbers the models need.
 
-kymo_info(kymo) -> dict(pixelsize=float, line_time=float, n_pixels=int, n_lines=int, unit=str, pixelsize_um=float|None)
+kymo_info(kymo, calibration=None) -> dict(pixelsize=float, line_time=float, n_pixels=int, n_lines=int, unit=str,
+    pixelsize_um=float|None); `calibration` = the value given to make_kymo ("um" / "kbp" / "pixel" is also the unit name).
 
 make_track(kymo, time_idx, coords, *, channel="red", min_duration=None, counts_half_width=None) -> KymoTrack
     time_idx integer scan-line indices (any order; the checks use strictly increasing ones), coords float
@@ -49,8 +72,33 @@ random_track(rng, n_lines, n_pixels, *, max_points=20, gap_chance=0.3, margin=0)
 random_group_spec(rng, n_lines, n_pixels, *, max_tracks=20, max_points=20, …) -> list of track dicts for make_group.
 """
 import json
+import os
+import shutil
+import tempfile
+import warnings
 
 import numpy as np
+
+PRIVATE_TIES = {}  # private name -> {"direct": n, "public": n, "unreachable": n}
+MD_LOSSY = False  # True once a minimum observable duration had to be read from the (six-decimal) CSV column
+_TMPDIR = None
+
+
+class Unreachable(Exception):
+    """neither the private member the builders prefer nor a public route can express this request on the tree under test"""
+
+
+def _tie(name, how):
+    d = PRIVATE_TIES.setdefault(name, {"direct": 0, "public": 0, "unreachable": 0})
+    d[how] = d.get(how, 0) + 1
+
+
+def _tmp(name):
+    global _TMPDIR
+    if _TMPDIR is None or not os.path.isdir(_TMPDIR):
+        _TMPDIR = tempfile.mkdtemp(prefix="verif_btracks_")
+    return os.path.join(_TMPDIR, name)
+
 
 FIRST_TIMESTAMP = 1388534400 * 10**9 + 10**9  # just after pylake's _FIRST_TIMESTAMP (2014-01-01)
 COLORS = ("red", "green", "blue")
@@ -100,7 +148,6 @@ def make_kymo(
     name="verif",
 ):
     from lumicks.pylake import low_level
-    from lumicks.pylake.kymo import _kymo_from_array
 
     image = np.asarray(image)
     if image.ndim != 2:
@@ -111,13 +158,13 @@ def make_kymo(
     if route == "array":
         if line_time_s is None:
             line_time_s = 0.125
-        kymo = _kymo_from_array(
+        kymo = _array_kymo(
             image.astype(float),
-            channel[0],
+            channel,
             float(line_time_s),
-            start=int(start),
-            pixel_size_um=None if calibration == "pixel" else float(pixel_size_um),
-            name=name,
+            int(start),
+            None if calibration == "pixel" else float(pixel_size_um),
+            name,
         )
     elif route == "lowlevel":
         spl = n_pixels * samples_per_pixel + line_padding
@@ -151,15 +198,115 @@ def make_kymo(
     return kymo
 
 
-def kymo_info(kymo):
+def _array_kymo(image, channel, line_time_s, start, pixel_size_um, name):
+    """route "array": `_kymo_from_array` while pylake has it, else the same kymograph through the public camera-stack route"""
+    try:
+        from lumicks.pylake.kymo import _kymo_from_array
+    except ImportError:
+        _kymo_from_array = None
+    if _kymo_from_array is not None:
+        try:
+            kymo = _kymo_from_array(image, channel[0], line_time_s, start=start, pixel_size_um=pixel_size_um, name=name)
+            _tie("kymo._kymo_from_array", "direct")
+            return kymo
+        except TypeError:  # same name, other signature: not ours any more
+            pass
+    key = (image.shape, image.tobytes(), line_time_s, start, pixel_size_um)
+    if key in _STACK_KYMOS:
+        _tie("kymo._kymo_from_array", "public")
+        return _STACK_KYMOS[key]
+    try:
+        kymo = _kymo_via_image_stack(image, line_time_s, start, pixel_size_um, name)
+    except Unreachable:
+        _tie("kymo._kymo_from_array", "unreachable")
+        raise
+    except Exception as e:
+        _tie("kymo._kymo_from_array", "unreachable")
+        raise Unreachable(f"_kymo_from_array is gone and the ImageStack route failed: {type(e).__name__} {e}")
+    _tie("kymo._kymo_from_array", "public")
+    if len(_STACK_KYMOS) >= 256:
+        _STACK_KYMOS.pop(next(iter(_STACK_KYMOS)))
+    _STACK_KYMOS[key] = kymo
+    return kymo
+
+
+_STACK_KYMOS = {}
+
+
+def _kymo_via_image_stack(image, line_time_s, start, pixel_size_um, name):
+    """PUBLIC twin of `_kymo_from_array`: one TIFF page (1 row x n_pixels, float64) per scan line with Bluelake's
+    DateTime / ImageDescription tags, `lk.ImageStack(file).define_tether(row ends).to_kymo(half_window=0)`.
+    Accepted only when it IS the requested kymograph: same image, line time and pixel size, bit for bit."""
+    import tifffile
+
+    from lumicks.pylake import ImageStack
+
+    n_pixels, n_lines = image.shape
+    period = int(round(line_time_s * 1e9))
+    if period <= 0 or n_lines < 2:
+        raise Unreachable("the camera-stack route needs >= 2 scan lines and a line time of >= 1 ns")
+    d = _tmp("stack_kymo")
+    shutil.rmtree(d, ignore_errors=True)
+    os.makedirs(d)
+    path = os.path.join(d, "kymo.tiff")
+    with tifffile.TiffWriter(path) as tif:
+        for t in range(n_lines):
+            t0 = start + t * period
+            stamp = f"{t0}:{t0 + period}"
+            desc = {
+                "Background subtraction": False, "Bit depth": 16, "Camera": "IRM", "Focus lock": False, "Frame averaging": 1,
+                "Frame rate (Hz)": 1e9 / period, "Pixel clock (MHz)": 50.0, "Exposure time (ms)": period * 1e-6,
+                "Region of interest (x, y, width, height)": [0, 0, int(n_pixels), 1],
+            }
+            if pixel_size_um is not None:
+                desc["Pixel calibration (nm/pix)"] = _nm_for(pixel_size_um)
+            tif.write(
+                np.ascontiguousarray(image[:, t], dtype=np.float64)[None, :], description=json.dumps(desc),
+                software="Bluelake 2.5.1", metadata=None, contiguous=False, photometric="minisblack",
+                extratags=((274, "H", 1, 1, False), (306, "s", len(stamp), stamp, False)),
+            )
+    with warnings.catch_warnings():
+        warnings.simplefilter("ignore")
+        stack = ImageStack(path)
+        try:
+            px = stack.pixelsize_um[0] if stack.pixelsize_um else 1.0
+            # tether from inside the first to inside the last pixel of the row (to_kymo takes the floor of its ends)
+            kymo = stack.define_tether((0.0, 0.0), ((n_pixels - 0.5) * px, 0.0)).to_kymo(half_window=0)
+            got = np.asarray(kymo.get_image("red"))
+            ok = (
+                got.shape == image.shape and np.array_equal(got, image) and float(kymo.line_time_seconds) == line_time_s
+                and (kymo.pixelsize_um[0] is None) == (pixel_size_um is None)
+                and float(kymo.pixelsize[0]) == (1.0 if pixel_size_um is None else pixel_size_um)
+            )
+        finally:
+            stack.close()
+            shutil.rmtree(d, ignore_errors=True)
+    if not ok:
+        raise Unreachable("the camera-stack route does not reproduce the requested image / line time / pixel size exactly")
+    return kymo
+
+
+def _nm_for(pixel_size_um):
+    """the nm value whose thousandth is exactly this um double (pylake divides the TIFF's nm/pixel by 1000)"""
+    nm = pixel_size_um * 1000.0
+    for cand in (nm, np.nextafter(nm, np.inf), np.nextafter(nm, -np.inf)):
+        if float(cand) / 1000 == pixel_size_um:
+            return float(cand)
+    return nm
+
+
+def kymo_info(kymo, calibration=None):
     shape = kymo.get_image("red").shape
+    um = kymo.pixelsize_um[0]
+    if calibration is None:  # public inference: uncalibrated <=> no um pixel size; kbp <=> calibrated pixel size differs from it
+        calibration = "pixel" if um is None else ("um" if float(kymo.pixelsize[0]) == float(um) else "kbp")
     return {
         "pixelsize": float(kymo.pixelsize[0]),
         "line_time": float(kymo.line_time_seconds),
         "n_pixels": int(shape[0]),
         "n_lines": int(shape[1]),
-        "unit": kymo._calibration.unit,
-        "pixelsize_um": None if kymo.pixelsize_um[0] is None else float(kymo.pixelsize_um[0]),
+        "unit": {"um": "um", "kbp": "kbp", "pixel": "pixel"}[calibration],
+        "pixelsize_um": None if um is None else float(um),
     }
 
 
@@ -170,7 +317,56 @@ def make_track(kymo, time_idx, coords, *, channel="red", min_duration=None, coun
     c = np.asarray(coords, dtype=float)
     if counts_half_width is None:
         return KymoTrack(t, c, kymo, channel, min_duration)
-    return KymoTrack._from_centroid_estimate(t, c, kymo, channel, int(counts_half_width), min_duration)
+    name = "KymoTrack._from_centroid_estimate"
+    direct = getattr(KymoTrack, "_from_centroid_estimate", None)
+    if direct is not None:
+        try:
+            track = direct(t, c, kymo, channel, int(counts_half_width), min_duration)
+            _tie(name, "direct")
+            return track
+        except TypeError:  # same name, other signature: not ours any more
+            pass
+    try:
+        track = _counted_track_via_csv(KymoTrack, t, c, kymo, channel, int(counts_half_width), min_duration)
+    except Unreachable:
+        _tie(name, "unreachable")
+        raise
+    except Exception as e:
+        _tie(name, "unreachable")
+        raise Unreachable(f"_from_centroid_estimate is gone and the CSV route failed: {type(e).__name__} {e}")
+    _tie(name, "public")
+    return track
+
+
+def _counted_track_via_csv(KymoTrack, t, c, kymo, channel, half_width, min_duration):
+    """PUBLIC twin of `KymoTrack._from_centroid_estimate`: the photon counts of the plain track
+    (`sample_from_image(h, correct_origin=True)`) are written next to its nodes into a one-track CSV file (every float
+    with 18 digits, so that the text is exact) and the file is imported: the importer attaches the counts column."""
+    from lumicks.pylake.kymotracker.kymotrack import import_kymotrackgroup_from_csv
+
+    with warnings.catch_warnings():
+        warnings.simplefilter("ignore")
+        counts = np.asarray(KymoTrack(t, c, kymo, channel, min_duration).sample_from_image(half_width, correct_origin=True), dtype=float)
+        titles = ["track index", "time (pixels)", "coordinate (pixels)", f"counts (summed over {2 * half_width + 1} pixels)"]
+        if min_duration is not None:
+            titles.append("minimum observable duration (seconds)")
+        lines = ["# Exported with pylake v1.5.3 | track coordinates v4", "# " + ";".join(titles)]
+        for ti, ci, ni in zip(t, c, counts):
+            cells = ["0", "%.18e" % float(ti), "%.18e" % float(ci), "%.18e" % float(ni)]
+            if min_duration is not None:
+                cells.append("%.18e" % float(min_duration))
+            lines.append(";".join(cells))
+        path = _tmp("counted_track.csv")
+        with open(path, "w") as f:
+            f.write("\n".join(lines) + "\n")
+        group = import_kymotrackgroup_from_csv(path, kymo, channel, delimiter=";")
+    if len(group) != 1:
+        raise Unreachable("the CSV route did not give one track")
+    track = group[0]
+    if not (np.array_equal(np.asarray(track.time_idx), t) and np.array_equal(np.asarray(track.position), c * kymo.pixelsize[0])
+            and np.array_equal(np.asarray(track.photon_counts, dtype=float), counts)):
+        raise Unreachable("the CSV route does not reproduce the requested nodes / counts exactly")
+    return track
 
 
 def make_group(kymo, tracks, *, channel="red"):
@@ -198,7 +394,7 @@ def track_state(track):
             counts = [float(x) for x in np.asarray(track.photon_counts)]
     except AttributeError:
         counts = None
-    md = track._minimum_observable_duration
+    md = min_duration_of(track)
     return {
         "t": [int(x) for x in np.asarray(track.time_idx)],
         "c": [float(x) for x in np.asarray(track.coordinate_idx)],
@@ -206,6 +402,47 @@ def track_state(track):
         "min_duration": None if md is None else float(md),
         "counts": counts,
     }
+
+
+_MD_SEEN = {}  # id(track) -> (track, value): tracks are immutable; the reference keeps the id from being reused
+
+
+def min_duration_of(track):
+    """minimum observable duration of a track: the private slot while it exists, else what `KymoTrackGroup([track]).save()`
+    writes into the column "minimum observable duration (seconds)" (`%.6e`; no column = None) - sets MD_LOSSY"""
+    global MD_LOSSY
+    name = "KymoTrack._minimum_observable_duration"
+    try:
+        md = track._minimum_observable_duration
+        _tie(name, "direct")
+        return md
+    except AttributeError:
+        pass
+    hit = _MD_SEEN.get(id(track))
+    if hit is not None and hit[0] is track:
+        _tie(name, "public")
+        return hit[1]
+    try:
+        from lumicks.pylake.kymotracker.kymotrack import KymoTrackGroup
+
+        path = _tmp("one_track.csv")
+        with warnings.catch_warnings():
+            warnings.simplefilter("ignore")
+            KymoTrackGroup([track]).save(path, delimiter=";")
+        with open(path) as f:
+            rows = f.read().split("\n")
+        titles = rows[1][2:].split(";")
+        title = "minimum observable duration (seconds)"
+        md = float(rows[2].split(";")[titles.index(title)]) if title in titles else None
+    except Exception as e:
+        _tie(name, "unreachable")
+        raise Unreachable(f"_minimum_observable_duration is gone and the CSV route failed: {type(e).__name__} {e}")
+    MD_LOSSY = True
+    _tie(name, "public")
+    if len(_MD_SEEN) >= 4096:
+        _MD_SEEN.clear()
+    _MD_SEEN[id(track)] = (track, md)
+    return md
 
 
 def group_state(group):
